@@ -1,11 +1,15 @@
 #!/bin/bash
-# usage: trymut.sh <patch.diff> <PROP> [extra check args]   -- applies a mutant to /repo, runs the check, reverts.
+# usage: trymut.sh <patch.diff> <PROP> [extra check args]
+# Tries a seeded change without touching /repo: the library's HEAD is exported to a
+# scratch directory, the patch is applied there, the check runs in scratch mode
+# (CHECK_SCRATCH: binaries, evidence and replays below the scratch directory) and the
+# scratch directory is removed. Exit status = the check's (1: the change is detected).
 patch="$1"; prop="$2"; shift 2
-cd /repo || exit 2
-if [ -n "$(git status --porcelain)" ]; then echo "repo dirty"; exit 2; fi
-git apply "$patch" || { echo "patch does not apply"; exit 2; }
-cd /verif && ./check "$prop" --tier quick "$@" 2>&1 | grep -a -E "VIOLATION|KNOWN|tier=|BUILD|  [a-z-]+/" | cut -c1-400 | head -20
+scratch=$(mktemp -d /tmp/trymut.XXXXXX)
+mkdir -p $scratch/repo
+git -C /repo archive HEAD | tar -x -C $scratch/repo || { rm -rf $scratch; exit 2; }
+( cd $scratch/repo && patch -p1 -s < "$patch" ) || { echo "patch does not apply"; rm -rf $scratch; exit 2; }
+CHECK_SCRATCH=$scratch /verif/check "$prop" --tier quick "$@" 2>&1 | grep -a -E "VIOLATION|KNOWN|tier=|BUILD|HANG|  [a-z-]+/" | cut -c1-400 | head -20
 rc=${PIPESTATUS[0]}
-cd /repo && git checkout -- . && git status --porcelain
-rm -f /verif/replays/*.json
+rm -rf $scratch
 exit $rc
